@@ -15,7 +15,7 @@ CLAIMED = {
              "[0, MAX] and is 0 whenever the previous kernel reads SHRAM bytes (its lookup table) that the current kernel overwrites; the SHRAM bytes a "
              "kernel is declared to write cover the layout its block configuration uses; ArchitectureFeatures.get_ifm_block_size (the job input "
              "volume the BLOCKDEP analysis assumes) covers the receptive field of an OFM block per axis for symbolic kernels, strides and blocks (also through the real get_first_job_input_volume); "
-             "address registers hold the operation's addresses at each NPU_OP word (what the wait analysis assumes), incl. bits 32..39. Added later: get_address_ranges_for_area (4 tiles) contains every byte of every element of the area; get_offset_block_coords numbers blocks depth/width/height; job j of the consumer is analysed at OFM block j // jobs_per_block (one job per block for depthwise/pooling/elementwise, IFM depth slices for convolutions) with the channels it reads (get_ifm_ofm_block_depth + get_first_job_input_volume); strided views keep their own footprint across calls. Round 7-8 additions: range_lists_overlap on lists with unused tiles; intersects() reports every pair of areas that share a byte (symbolic bases); re-targeted feature-map objects.",
+             "address registers hold the operation's addresses at each NPU_OP word (what the wait analysis assumes), incl. bits 32..39. Added later: get_address_ranges_for_area (4 tiles) contains every byte of every element of the area; get_offset_block_coords numbers blocks depth/width/height; job j of the consumer is analysed at OFM block j // jobs_per_block (one job per block for depthwise/pooling/elementwise, IFM depth slices for convolutions) with the channels it reads (get_ifm_ofm_block_depth + get_first_job_input_volume); strided views keep their own footprint across calls. Round 7-8 additions: range_lists_overlap on lists with unused tiles; intersects() reports every pair of areas that share a byte (symbolic bases); re-targeted feature-map objects. Round 9 additions: the kernel the BLOCKDEP analysis works with is the operation's kernel (real to_kernel / to_npu_kernel on six symbolic fields; ifm_block obtains its kernel through to_kernel).",
         note="Trusted: z3, symx proxies, the two-queue hardware model restated from the property, stubs replacing register "
              "generation/blockdep in layer 1. Outside: whether a non-zero BLOCKDEP is safe under NPU block timing; streams of compiled networks.",
         technique="dynamic symbolic execution of the real Python functions over z3 proxies (symx), bounded; counterexample replay",
@@ -28,7 +28,7 @@ CLAIMED = {
              "whole runs; linear allocation with sharing patterns; verify_allocation shown to reject exactly the overlapping placements; "
              "tensor_allocation.allocate() hands the requested alignment, iteration bound (symbolic, incl. 0) and memory limit to whichever allocator is selected; "
              "LiveRangeGraph keeps the strictest alignment requested. "
-             "Oracle: own interval predicate (co-live => disjoint, aligned, total == / >= top). Added later: the requested CPU tensor alignment reaches every live range, including tensors of nested control-flow subgraphs (real extract_live_ranges_from_cascaded_passes, symbolic alignment); live ranges are only fused when the output really replaces the input (ifm_fuse); the weight buffer holding the last depth slice stays alive to the end of its operation (wbuf_lifetime). Round 7-8 additions: allocate_tensors' reported footprint is the sum of the kept allocations (report); TensorAddressMap histories (address_map); Tensor.storage_size on symbolic, possibly empty, shapes and after a widening rewrite (lr_sizes).",
+             "Oracle: own interval predicate (co-live => disjoint, aligned, total == / >= top). Added later: the requested CPU tensor alignment reaches every live range, including tensors of nested control-flow subgraphs (real extract_live_ranges_from_cascaded_passes, symbolic alignment); live ranges are only fused when the output really replaces the input (ifm_fuse); the weight buffer holding the last depth slice stays alive to the end of its operation (wbuf_lifetime). Round 7-8 additions: allocate_tensors' reported footprint is the sum of the kept allocations (report); TensorAddressMap histories (address_map); Tensor.storage_size on symbolic, possibly empty, shapes and after a widening rewrite (lr_sizes). Round 9 additions: symbolic tensor kind per range (CPU tensor, NPU-only tensor, operator-less buffer, each with the alignment it requests) through the real allocate()/verify_alignment; live-range fusion driven through the real merge_elementwise_op_ranges with symbolic memory area/type per tensor; every weight buffer's live range is marked and covers its operation's step (real extract_live_ranges_from_schedule / mark_usage).",
         note="Trusted: z3, symx proxies, stand-in tensor objects (LiveRange is the real class). Outside: more than 4 ranges in whole-run "
              "harnesses (step lemmas carry the unbounded part), the concrete pseudo-random sequence (all RNG values explored instead), "
              "Greedy over-reporting by less than one alignment unit is accepted (documented oracle decision).",
@@ -56,7 +56,7 @@ CLAIMED = {
              "not yet overwritten in a rolling buffer of the height rolling_buffer_shape() gives; Scheduler.propose_minimal_schedule / "
              "propose_schedule_striping on operator chains with symbolic strides: producer stripes cover the consumer's stride and nearest-upscaling "
              "operators only get even stripe heights (the assumption of the x2 upscaling lemma). rows/cols also run with the operator reading a slice of a larger "
-             "tensor (fused Split/StridedSlice: symbolic read offset and extent) and take the programmed pads from the REAL create_padding. Added later: transpose-convolution paddings through the real fixup_conv2d_backprop + add_padding_fields for symbolic kernels and sizes (strides 2x2 and 2x1 exact; stride 1x1 is a recorded finding); CascadeBuilder._is_cascadable never lets a transpose convolution or a tile-padded operator be striped; rolling_buffer_shape dimensions. Round 7-8 additions: Scheduler.apply_schedule twice on a real Tensor (apply_twice); the stripe input recorded by create_scheduler_info (stripe_input); restripe_buffers.",
+             "tensor (fused Split/StridedSlice: symbolic read offset and extent) and take the programmed pads from the REAL create_padding. Added later: transpose-convolution paddings through the real fixup_conv2d_backprop + add_padding_fields for symbolic kernels and sizes (strides 2x2 and 2x1 exact; stride 1x1 is a recorded finding); CascadeBuilder._is_cascadable never lets a transpose convolution or a tile-padded operator be striped; rolling_buffer_shape dimensions. Round 7-8 additions: Scheduler.apply_schedule twice on a real Tensor (apply_twice); the stripe input recorded by create_scheduler_info (stripe_input); restripe_buffers. Round 9 addition: kernel_conversion (to_npu_kernel / to_kernel keep every field).",
         note="Trusted: z3, symx proxies, the hardware-side rule that the NPU derives the valid IFM extent from OFM size, kernel, stride "
              "and pads (DESIGN §3 C10), stand-in schedule objects. Bounds: H<=64 (thorough 4096), kernel<=8 (16), cascade height<=40, "
              "<=4 consumer / <=12 producer stripes. Outside: scheduler-chosen stripe sequences of real networks, exact pad semantics "
@@ -160,7 +160,7 @@ CLAIMED = {
              "weights x combined/stand-alone scales) with symbolic encoded ranges names the region and bytes of the tensor that holds them; the arguments "
              "handed to the C codec (dilation axes, bit depth, traversal) per accelerator; the REAL Scheduler.propose_weight_buffering over symbolic "
              "per-slice byte counts: every depth slice fits the SRAM buffer it is DMA-ed into and weight and scale tensors describe the recorded slices; the "
-             "(multiplier, shift) of each scale record is the reference quantisation of the reference per-channel scale (C09's prep_scales and qs lemmas). Added later: a request that differs from a cached one in any codec input (values of a clone with the same equivalence id, dilation, block depth, depth offsets, block type) is encoded afresh, and one that differs in bias values, IFM scale or OFM scale (symbolic floats) derives and packs its own scale records; a core without a stream of its own is programmed with length 0 (idle_core); serialise_npu_subgraph_into_tensors writes every operation's weight stream and scale records to the constant tensor at their addresses, for every sharing pattern of 2..4 operations. Round 7-8 additions: 40-bit bias packing through int.to_bytes-style code (bit-vector exact); the reduced int16 multiplier; a rewrite that changes weight values refreshes value_id (rewrite_value_id).",
+             "(multiplier, shift) of each scale record is the reference quantisation of the reference per-channel scale (C09's prep_scales and qs lemmas). Added later: a request that differs from a cached one in any codec input (values of a clone with the same equivalence id, dilation, block depth, depth offsets, block type) is encoded afresh, and one that differs in bias values, IFM scale or OFM scale (symbolic floats) derives and packs its own scale records; a core without a stream of its own is programmed with length 0 (idle_core); serialise_npu_subgraph_into_tensors writes every operation's weight stream and scale records to the constant tensor at their addresses, for every sharing pattern of 2..4 operations. Round 7-8 additions: 40-bit bias packing through int.to_bytes-style code (bit-vector exact); the reduced int16 multiplier; a rewrite that changes weight values refreshes value_id (rewrite_value_id). Round 9 addition: the real max_range_bytes() / double_buffer_size() bound every slice's extent (all cores' ranges with alignment).",
         note="Partial by design: the byte content of the compressed streams (C codec, C07) is outside; what is decided is the index/offset/"
              "length bookkeeping around it. Trusted: z3, symx proxies, length-only byte-stream stand-ins. Assumes intermediate slice boundaries "
              "are multiples of the core count (established by propose_weight_buffering).",
@@ -178,7 +178,7 @@ CLAIMED = {
              "stay inside the tensor; the scheduler's rolling-buffer size equals the live range; weight/scale ranges name the region of the tensor that "
              "holds them (create_weights, four configurations); an operation with fewer weight ranges than cores programs length 0 for the idle core; every "
              "weight depth slice fits the SRAM buffer propose_weight_buffering creates for it; a slice's weight DMA reads exactly that slice; rolling_buffer_shape is as wide "
-             "as the producer writes and the consumer reads. The remaining weight/DMA address arithmetic is decided under C08. Added later: the tile-padding re-pointing of the four tiles (modify_tile_addresses_for_padding) replicates the edge element inside the tensor; check_format_restrictions keeps the brick format only when every producer and consumer can address bricks (no DMA copy on either side, aligned depth offsets, equal view shapes); a strided view's elements lie inside the ranges get_address_ranges declares, also after an identical dense feature map was analysed in the same process. Round 7-8 additions: the KERNEL_* registers carry the operation's kernel (programmed_kernel); SRAM weight buffers of a re-striped schedule are sized from the re-encoded weights (restripe_buffers); a re-targeted feature-map object is analysed with its new addresses.",
+             "as the producer writes and the consumer reads. The remaining weight/DMA address arithmetic is decided under C08. Added later: the tile-padding re-pointing of the four tiles (modify_tile_addresses_for_padding) replicates the edge element inside the tensor; check_format_restrictions keeps the brick format only when every producer and consumer can address bricks (no DMA copy on either side, aligned depth offsets, equal view shapes); a strided view's elements lie inside the ranges get_address_ranges declares, also after an identical dense feature map was analysed in the same process. Round 7-8 additions: the KERNEL_* registers carry the operation's kernel (programmed_kernel); SRAM weight buffers of a re-striped schedule are sized from the re-encoded weights (restripe_buffers); a re-targeted feature-map object is analysed with its new addresses. Round 9 addition: resize_lowering - the real convert_resize_to_upscale_and_average_pool on symbolic height/width: per stage the rows/columns the NPU derives from OFM size, kernel and padding are exactly the x2-upscaled input; depthwise selection kernel of the align_corners nearest-neighbour case has one sample per channel.",
         note="Partial: the composition allocator address + footprint <= published region sizes over a compiled network is outside (no "
              "end-to-end compilation in this technique); graph-level format decisions are outside. Trusted: z3, symx proxies, the tile/stride "
              "addressing rule restated in the harness.",
@@ -195,7 +195,7 @@ CLAIMED = {
              "double buffering: slice k uses buffer k mod n with its DMA before its stripe, and the buffer whose live range "
              "extract_live_ranges_from_schedule keeps to the end (expression taken from its AST) is the one the last slice uses; double_buffer_sizes "
              "bound every (all cores') slice assigned to that buffer and propose_weight_buffering's buffers hold every slice DMA-ed into them; a "
-             "feature-map copy is elided only when source and destination are the same bytes. Added later: an elementwise/copy output takes over an input's bytes only when its consumer list is exactly that operation (real _get_ifm_to_fuse, lazily decided symbolic graph facts); no brick format around a DMA copy (format_rules); the generator emits the table DMA in front of every row group of a LUT operation (lut_dma); rolling_buffer_shape covers width, bricks and rows (rolling_dims). Round 8 additions: stand-alone scale tensors are read from their own region (weight_ranges); table-clobbering stripes of any block type on 16-bank parts.",
+             "feature-map copy is elided only when source and destination are the same bytes. Added later: an elementwise/copy output takes over an input's bytes only when its consumer list is exactly that operation (real _get_ifm_to_fuse, lazily decided symbolic graph facts); no brick format around a DMA copy (format_rules); the generator emits the table DMA in front of every row group of a LUT operation (lut_dma); rolling_buffer_shape covers width, bricks and rows (rolling_dims). Round 8 additions: stand-alone scale tensors are read from their own region (weight_ranges); table-clobbering stripes of any block type on 16-bank parts. Round 9 additions: wbuf_live (every SRAM weight buffer alive at its operation's step, pre-buffered ones a step earlier, the last-slice buffer to the end) and arena-aware live-range fusion (ifm_fuse).",
         note="Partial: per-byte last-writer tracking over emitted streams of compiled networks, live-range extraction and buffer sizing wiring "
              "over real schedules are outside. Trusted: z3, symx proxies, stand-in schedule/tensor objects, the SHRAM LUT window model. The "
              "recorded stride-3 rolling-buffer finding is reported as KNOWN-FINDING.",
@@ -212,7 +212,7 @@ CLAIMED = {
              "sentence the report prints for it, with the numeric limits read from the generated report text (stride, dilated kernel, filter, "
              "tensor dimension, batch, broadcast, depth multiplier, transpose convolution strides and shapes, resize scaling, half pixel centres, "
              "arg max, mean products/width/depth/axes, pad shape, strided slice strides and ranges, transpose permutations, concatenation axis and "
-             "dimensions, split axis and divisibility, convolution groups, matching shapes). Round 9 addition: 25 further single-sentence constraints (c_simple) with type/operator lists read from the generated report. Round 7-8 additions: 12 element-type constraints over all type combinations; rewrites that follow the check in the same list never see a rejected operator; fixup_pool_strides only rewrites single-window pools; the 40-bit bias constraint equals the signed range of the scale record; fuse_activation_function_with_prev never touches an operator that stays on the CPU.",
+             "dimensions, split axis and divisibility, convolution groups, matching shapes). Round 9 addition: 25 further single-sentence constraints (c_simple) with type/operator lists read from the generated report. Round 7-8 additions: 12 element-type constraints over all type combinations; rewrites that follow the check in the same list never see a rejected operator; fixup_pool_strides only rewrites single-window pools; the 40-bit bias constraint equals the signed range of the scale record; fuse_activation_function_with_prev never touches an operator that stays on the CPU. Round 9 addition: cpu_operands - real reader step (parse_operator) then real writer preparation (TFLiteSerialiser.__init__) for every operator kind: the operands to be written are the operands read.",
         note="Partial: what happens to the operator after the decision (graph rewriting, pass packing, subgraph extraction) is outside, as are "
              "constraints on tensor values (weight sums, 40-bit bias, quantisation scales), LSTM structure constraints and TOSA. The committed "
              "SUPPORTED_OPS.md is not the oracle (it is older than the code); the property speaks of the report Vela generates. Trusted: z3, symx "
@@ -227,7 +227,7 @@ CLAIMED = {
              "limit - usage; placement constraint functions (resize incl. align_corners / half_pixel_centers, strides, broadcast, batch, matching "
              "shapes, transpose convolution) return a verdict - never raise - for every operator geometry with positive dimensions, so an operator "
              "that cannot be accelerated stays on the CPU instead of ending the compilation; vela.main() turns every VelaError subclass raised "
-             "below it into a console message and a non-zero status and lets nothing escape. Round 7-8 additions: scale constraints on scalar and per-axis scale representations; main() with every way of naming a configuration file (internal exceptions are violations); rewrite_mark_tensor_purpose over shared constants; TFLiteSerialiser.serialise_tensor for every rank and element type.",
+             "below it into a console message and a non-zero status and lets nothing escape. Round 7-8 additions: scale constraints on scalar and per-axis scale representations; main() with every way of naming a configuration file (internal exceptions are violations); rewrite_mark_tensor_purpose over shared constants; TFLiteSerialiser.serialise_tensor for every rank and element type. Round 9 additions: fold_disconnect (SHAPE / QUANTIZE constant folding with a symbolic consumer list incl. the subgraph-output marker), t_per_axis (array-valued scale/zero point never reach scalar comparisons), t_resize_lowering (resize lowering ends without an internal exception).",
         note="Partial: totality of reader, graph optimiser, scheduler search, allocator and writer over all models and option combinations is outside "
              "(no bounded encoding of 'all models'). Trusted: z3, symx NumPy proxies (NEP 50 promotion, validated against the installed NumPy in every run).",
         technique="dynamic symbolic execution of the real Python functions over z3 proxies (symx) incl. NumPy fixed-width/Python int promotion semantics, bounded; counterexample replay",
